@@ -38,6 +38,12 @@ pub broadcast proof fn lemma_advance_trans(a: Seq<Option<u8>>, b: Seq<Option<u8>
 }
 pub broadcast group group_advance { lemma_advance_refl, lemma_advance_trans }
 }
+pub mod jg {
+use vstd::prelude::*;
+use super::rd::*;
+//@@ include lemmas/json_grammar.rs
+}
+use jg::*;
 broadcast use {rdl::group_advance, ls::axiom_json_of_f64_is_number};
 pub mod ls {
 use vstd::prelude::*;
@@ -159,6 +165,8 @@ pub trait JsonParserUtils {
         requires old(self).rv2().ok, old(self).rv2().cur matches Some(b) && (b == 0x2du8 || is_digit(b)),
         ensures lex_post(old(self).rv2(), final(self).rv2(), r), progress(old(self).rv2(), final(self).rv2(), r),
             r is Ok ==> r->Ok_0 is Number, // @tobl L2.kind
+            // the token consumed is exactly the maximal number token (upper-case exponents included): C01.look
+            !is_io(r) ==> final(self).rv2().pending.len() + num_end(old(self).rv2().pending) == old(self).rv2().pending.len(), // @tobl L2.token
 //@@ endfn
 //@@ fn lex.t.read_string = src/json_parser.rs :: trait JsonParserUtils :: fn read_string
 //@@ ret r
@@ -223,11 +231,66 @@ impl<R: Read> JsonParserUtils for Reader<R> {
 //@@ safety C01 C05 C06 C16 C19
 //@@ rewrite try_io
 //@@ body-start
+        let ghost p0 = self.pending();
         proof {
-            let p0 = self.pending();
             assert(p0[0] == self.cur());
             // a token that starts with a digit has a non-empty digit run: read_digits consumes at least that digit
             assert(self.cur() != Some(0x2du8) ==> digit_run(p0) >= 1);
+        }
+//@@ before#1 "self.read_digits(&mut chars)?;"
+        proof {
+            assert(advance(p0, self.pending()));
+            assert(self.pending().len() == p0.len() - num_sign(p0));
+        }
+//@@ after "let mut double = false;"
+        let ghost p2 = self.pending();
+        proof {
+            assert(advance(p0, p2));
+            assert(p2.len() == p0.len() - num_int_end(p0));
+            assert(p2.len() > 0 ==> p2[0] == p0[num_int_end(p0)]);
+        }
+//@@ after#1 "double = true;"
+            proof {
+                assert(self.pending() == p2);
+                assert(p2[0] == self.cur());
+                assert(num_has_frac(p0));
+            }
+//@@ before#2 "self.read_digits(&mut chars)?;"
+            proof {
+                assert(advance(p0, self.pending()));
+                assert(self.pending().len() == p0.len() - (num_int_end(p0) + 1));
+            }
+//@@ before "Some(b'e' | b'E')"
+        let ghost pf = self.pending();
+        proof {
+            assert(!num_has_frac(p0) ==> pf == p2);
+            assert(advance(p0, pf));
+            assert(pf.len() == p0.len() - num_frac_end(p0));
+            assert(pf.len() > 0 ==> pf[0] == p0[num_frac_end(p0)]);
+        }
+//@@ after#2 "double = true;"
+            proof {
+                assert(self.pending() == pf);
+                assert(pf[0] == self.cur());
+                assert(num_has_exp(p0));
+            }
+//@@ before "match self.peek()? {"
+            let ghost p5 = self.pending();
+            proof {
+                assert(advance(p0, p5));
+                assert(p5.len() == p0.len() - (num_frac_end(p0) + 1));
+                assert(p5.len() > 0 ==> p5[0] == p0[num_frac_end(p0) + 1]);
+            }
+//@@ before#3 "self.read_digits(&mut chars)?;"
+            proof {
+                assert(advance(p0, self.pending()));
+                assert(self.pending().len() == p0.len() - num_exp_digits_at(p0));
+            }
+//@@ before "let str = match String::from_utf8(chars) {"
+        proof {
+            assert(!num_has_exp(p0) ==> self.pending() == pf);
+            assert(advance(p0, self.pending()));
+            assert(self.pending().len() == p0.len() - num_end(p0));
         }
 //@@ endfn
 //@@ fn lex.read_string = src/json_parser.rs :: impl<R: Read> JsonParserUtils for Reader<R> :: fn read_string
